@@ -28,4 +28,24 @@ func init() {
 	t("C09", 30000)
 	q("C18", 1200)
 	t("C18", 30000)
+	q("C10", 1500)
+	t("C10", 30000)
+	q("C11", 1200)
+	t("C11", 24000)
+	q("C12", 2000)
+	t("C12", 40000)
+	q("C13", 800)
+	t("C13", 16000)
+	q("C14", 900)
+	t("C14", 18000)
+	q("C15", 1500)
+	t("C15", 30000)
+	q("C16", 1500)
+	t("C16", 30000)
+	q("C17", 900)
+	t("C17", 18000)
+	q("C19", 1500)
+	t("C19", 30000)
+	q("C20", 1500)
+	t("C20", 30000)
 }
